@@ -113,6 +113,9 @@ func (x *fsx) shapeOf(s *an.PathState, t *an.Term, depth int) shape {
 		if isStoreField(t.Args[0], "Dir", "BaseDir") {
 			return shape{Kind: "base"}
 		}
+		if t.Args[0].Op == "freevar" {
+			return shape{Kind: "freevar", Param: t.Args[0].Aux}
+		}
 		if isEntryDerived(t) {
 			return shape{Kind: "entryname"}
 		}
@@ -193,6 +196,9 @@ func (x *fsx) fileShape(s *an.PathState, t *an.Term, depth int) shape {
 	}
 	if t.Op == "param" {
 		return shape{Kind: "param", Param: t.Aux, ParamIsFile: true}
+	}
+	if t.Op == "load" && t.Args[0].Op == "freevar" {
+		return shape{Kind: "freevar", Param: t.Args[0].Aux, ParamIsFile: true}
 	}
 	c, idx := t.CallOf()
 	if c == nil {
@@ -339,6 +345,12 @@ func (x *fsx) operandShapes(fn *ssa.Function, in ssa.CallInstruction, opnd int, 
 			}
 			return
 		}
+		if sh.Kind == "freevar" {
+			for _, r := range x.freeAtCreator(fn, sh.Param, sh.ParamIsFile, depth+1) {
+				add(r)
+			}
+			return
+		}
 		add(sh)
 	})
 	if !res.Complete {
@@ -392,6 +404,62 @@ func (x *fsx) paramAtCallers(fn *ssa.Function, param string, isFile bool, depth 
 		}
 		shs, _ := x.operandShapes(e.Caller.Func, site, pidx, isFile, depth)
 		out = append(out, shs...)
+	}
+	return out
+}
+
+// freeAtCreator resolves a captured variable of closure fn in the function that creates the closure: the
+// value held by the captured variable on every path to the closure's creation.
+func (x *fsx) freeAtCreator(fn *ssa.Function, name string, isFile bool, depth int) []shape {
+	parent := fn.Parent()
+	if parent == nil || depth > 4 {
+		return []shape{{Kind: "other", Why: "free variable " + name + " outside a closure"}}
+	}
+	fvIdx := -1
+	for i, fv := range fn.FreeVars {
+		if fv.Name() == name {
+			fvIdx = i
+		}
+	}
+	if fvIdx < 0 {
+		return []shape{{Kind: "other", Why: "free variable " + name + " not found"}}
+	}
+	var out []shape
+	found := false
+	for _, b := range parent.Blocks {
+		for _, in := range b.Instrs {
+			mc, ok := in.(*ssa.MakeClosure)
+			if !ok || mc.Fn != fn {
+				continue
+			}
+			found = true
+			bind := mc.Bindings[fvIdx]
+			an.EnumPaths(parent, nil, mc, func(s *an.PathState) {
+				bt := s.T(bind)
+				v := s.Mem(bt)
+				if v == nil {
+					out = append(out, shape{Kind: "other", Why: "captured variable " + name + " has no known value at closure creation"})
+					return
+				}
+				var sh shape
+				if isFile {
+					sh = x.fileShape(s, v, 0)
+				} else {
+					sh = x.shapeOf(s, v, 0)
+				}
+				switch sh.Kind {
+				case "param":
+					out = append(out, x.paramAtCallers(parent, sh.Param, sh.ParamIsFile, depth+1)...)
+				case "freevar":
+					out = append(out, x.freeAtCreator(parent, sh.Param, sh.ParamIsFile, depth+1)...)
+				default:
+					out = append(out, sh)
+				}
+			})
+		}
+	}
+	if !found {
+		return []shape{{Kind: "other", Why: "closure creation site not found"}}
 	}
 	return out
 }
